@@ -19,6 +19,18 @@ HARNESSES.append(H('S_mainq_sync_held', 'h_mainq.c', ['dispatch_sync_f', 'dispat
     noglobal=['_dispatch_queue_attrs', '_dispatch_mgr_q'], icall_only=['_dispatch_main_queue_push', '_dispatch_main_queue_wakeup', '_dispatch_lane_push', '_dispatch_lane_wakeup', '_dispatch_async_and_wait_invoke', '_dispatch_sync_function_invoke'],
     nt=1, heap=1024, unwind=5, probes=ST_PROBES, timeout=600, witness_any=True,
     note='real dispatch_sync_f / barrier_sync_f / async_and_wait_f / barrier_async_and_wait_f on the real _dispatch_main_q held by another thread (all other state bits arbitrary): the item is never run inline; the caller enqueues itself and sleeps'))
+PRX = dict(ST_PROBES); PRX.update({'SZ_block_layout': 'sizeof(struct Block_layout)', 'OFF_block_invoke': 'offsetof(struct Block_layout, invoke)', 'SZ_dbpd': 'sizeof(struct dispatch_block_private_data_s)',
+  'OFF_dbpd_magic': 'offsetof(struct dispatch_block_private_data_s, dbpd_magic)', 'OFF_dbpd_block': 'offsetof(struct dispatch_block_private_data_s, dbpd_block)', 'OFF_dbpd_group': 'offsetof(struct dispatch_block_private_data_s, dbpd_group)',
+  'DBPD_MAGIC': 'DISPATCH_BLOCK_PRIVATE_DATA_MAGIC', 'DQF_THREAD_BOUND': 'DQF_THREAD_BOUND'})
+for _op in range(4):
+  for _kind in range(3):
+    HARNESSES.append(H('S_serial_sync_exclusive_%s_%s' % (['sync', 'barrier_sync', 'async_and_wait', 'barrier_async_and_wait'][_op], ['f', 'block', 'blockobj'][_kind]), 'h_excl.c', ['dispatch_sync_f', 'dispatch_barrier_sync_f', 'dispatch_async_and_wait_f', 'dispatch_barrier_async_and_wait_f', 'dispatch_sync', 'dispatch_barrier_sync', 'dispatch_async_and_wait', 'dispatch_barrier_async_and_wait',
+     '_dispatch_main_q', '_dispatch_block_special_invoke', '_dispatch_lane_wakeup', '__dispatch_tsd'],
+    stubs=['_dispatch_bug', 'libdispatch_tsd_init', '_dispatch_set_basepri_override_qos', '_dispatch_queue_wakeup_with_override_slow', '_dispatch_client_callout', '_dispatch_main_queue_wakeup', '_dispatch_queue_push_queue', '_dispatch_lane_drain_barrier_waiter', '_dispatch_futex_wait', '_dispatch_futex_wake',
+           '_dispatch_retain_2', '_dispatch_release_2_tailcall', '_dispatch_release_2', 'dispatch_group_leave', '_os_object_release_internal', '_os_object_release_internal_n'],
+    noglobal=['_dispatch_queue_attrs', '_dispatch_mgr_q'], icall_only=['_dispatch_async_and_wait_invoke', '_dispatch_sync_function_invoke', '_dispatch_block_sync_invoke', '_dispatch_call_block_and_release', '_dispatch_main_queue_wakeup', '_dispatch_lane_wakeup'], harness_fns={'vp_body': ('void', ['u64'])},
+    nt=1, heap=2048, unwind=5, probes=PRX, timeout=600, witness_any=True, defines=['-DOP=%d' % _op, '-DKIND=%d' % _kind],
+    note='every synchronous submission API (function / plain block / block object with private data) on an idle serial queue: the body runs only while the caller is the exclusive owner; idle again on return'))
 # ---- tier H: histories on one serial queue (shared harness): FIFO, one at a time, and nested submissions by a second client thread while an item is running
 from hist_spec import HH
 from seqs import seqs
